@@ -120,6 +120,8 @@ def net_rings(nd):
         top = lanes * w + 4.0
         out[90] = ([[x0, -4.0], [x0, top]], [[x0 + cw, -4.0], [x0 + cw, top]])
         out[91] = ([[x0 + cw, -4.0], [x0 + cw, top]], [[x0 + 2 * cw, -4.0], [x0 + 2 * cw, top]])
+    if nd.get("twin") in out:
+        out[95] = ([list(p) for p in out[nd["twin"]][0]], [list(p) for p in out[nd["twin"]][1]])
     return out
 
 
@@ -686,6 +688,10 @@ def gen_case(rng):
     nd = {"lanes": lanes, "segs": segs, "width": width, "seg_len": seg_len,
           "kappa": rng.choice([0.0, 0.0, 0.02, -0.015, 0.04]), "pts": rng.randint(2, 4),
           "cross": rng.choice([None, None, 2.0, 5.0])}
+    if rng.random() < 0.25:
+        # a lane that is modelled twice (car lane + tram / bus lanelet over the same surface): same boundary polylines,
+        # another id
+        nd["twin"] = rng.randint(1, lanes * segs)
     length, top = segs * seg_len, lanes * width
     obs = []
     n_obs = rng.choice([1, 2, 2, 3, 3, 4, 5])
